@@ -80,7 +80,16 @@ ConnFrames ==
     FC("fwdopen", FO(Cid3, 3, 100, 0)), FC("fwdclose", FO(Cid3, 3, 100, 0)),                    \* connection serial 0 is a serial like any other
     F("register", S0, C1, "simple", <<>>, NoReq) }
   \cup { FU(c, sq, q) : c \in {Cid1, Cid2}, sq \in {1, 65535}, q \in {WriteA, ReadA, ReadBad, Bundle} }
-FrameSet == IF Frames = "routes" THEN RouteFrames ELSE IF Frames = "pipeline" THEN AllFrames \cup PipeFrames
+\* request routing to a second device: the first route path segment 1/2 is mapped to a remote simulator ([UCMM] Route);
+\* "hostile" variants carry an Unconnected Send time-out of 10 ms
+Route12 == << [k |-> "port", p |-> 1, l |-> 2] >>
+ReadA1 == Rq("read", 1, 1, 2, "INT", <<>>)
+ReadB  == Rq("read", 2, 0 - 1, 1, "DINT", <<>>)
+RoutingFrames ==
+  { F("register", S0, C1, "simple", <<>>, NoReq) }
+  \cup { F("rr", S1, <<i, 9, 9, 9, 9, 9, 9, i>>, "ucsend", rt, q) : i \in {1, 2}, rt \in {Route12, Route10}, q \in {ReadA, ReadA1, ReadB, WriteA, WriteB} }
+  \cup { [F("rr", S1, <<7, 7, 7, 7, 7, 7, 7, 7>>, "ucsend", Route12, q) EXCEPT !.tmo = 5] @@ [uprio |-> 0, uticks |-> 10] : q \in {ReadA, ReadB} }
+FrameSet == IF Frames = "routing" THEN RoutingFrames ELSE IF Frames = "routes" THEN RouteFrames ELSE IF Frames = "pipeline" THEN AllFrames \cup PipeFrames
             ELSE IF Frames = "connected" THEN ConnFrames ELSE AllFrames
 
 Scenario(fs) == [cfg |-> SCfg, pers |-> SPers, mem0 |-> ZeroMemOf(SCfg), frames |-> fs]
